@@ -8,15 +8,15 @@ import Rscp.Gen.Leaves
 namespace Rscp.Tie.Log
 
 /-- source of `rscp_Message_String` is unchanged -/
-theorem shape_rscp_Message_String : Rscp.Gen.Shape.rscp_Message_String = "e05da4868a02257fb842d9169c06048b" := rfl
+theorem shape_rscp_Message_String : Rscp.Gen.Shape.rscp_Message_String = "4ecf51dda3c59f35d5b653478a663c65" := rfl
 /-- source of `rscp_Tag_isSecret` is unchanged -/
-theorem shape_rscp_Tag_isSecret : Rscp.Gen.Shape.rscp_Tag_isSecret = "8267122f8955c4700439114ebb027109" := rfl
+theorem shape_rscp_Tag_isSecret : Rscp.Gen.Shape.rscp_Tag_isSecret = "c9e4878fd82caa0087f0db71b2c003e3" := rfl
 /-- source of `rscp_Write` is unchanged -/
-theorem shape_rscp_Write : Rscp.Gen.Shape.rscp_Write = "1a5c27a8dc377d03446d72105346f5e2" := rfl
+theorem shape_rscp_Write : Rscp.Gen.Shape.rscp_Write = "05a2264437ccca411034c7f364ec58eb" := rfl
 /-- source of `rscp_Read` is unchanged -/
-theorem shape_rscp_Read : Rscp.Gen.Shape.rscp_Read = "98c84a9dd5aa2648bc5ba118ef2ae9dc" := rfl
+theorem shape_rscp_Read : Rscp.Gen.Shape.rscp_Read = "0d7f035768ca703abf75c70a850908aa" := rfl
 /-- source of `rscp_Client_authenticate` is unchanged -/
-theorem shape_rscp_Client_authenticate : Rscp.Gen.Shape.rscp_Client_authenticate = "d806479c92d1a010fb848cd1e3a7f447" := rfl
+theorem shape_rscp_Client_authenticate : Rscp.Gen.Shape.rscp_Client_authenticate = "bee8cebd6d22ae0088f498c6cf2dbf0c" := rfl
 /-- leaf `authenticate_hideLog`: source text and argument list are unchanged -/
 theorem leaf_authenticate_hideLog_src : Rscp.Gen.Leaf.authenticate_hideLog_src = "orgLogLevel < RequiredAuthLogLevel" := rfl
 theorem leaf_authenticate_hideLog_args : Rscp.Gen.Leaf.authenticate_hideLog_args = ["orgLogLevel"] := rfl
